@@ -16,6 +16,12 @@ var suites = map[string]func(tier string) []*families.Case{
 	"f1q":  func(tier string) []*families.Case { return families.F1(1, 3, 3, []string{"", "i", "s", "is", "n", "nis"}) },
 	"f12":  func(tier string) []*families.Case { return families.F12(3, []string{"", "i", "n"}) },
 	"f2d":  func(tier string) []*families.Case { return families.F2D(3, 8, 3, []string{"", "s", "is"}) },
+	"f17":  func(tier string) []*families.Case {
+		return append(families.F17(4, []string{"", "is", "n", "nis"}), families.F18(6, []string{"", "is"})...)
+	},
+	"f20":  func(tier string) []*families.Case { return families.F20(3, []string{"", "is"}) },
+	"f4":   func(tier string) []*families.Case { return families.F4(3, []string{"", "s", "n"}) },
+	"f19":  func(tier string) []*families.Case { return families.F19(2, []string{"", "s"}) },
 	"f4l":  func(tier string) []*families.Case { return families.F4L(2, []string{"", "s"}) },
 	"f2d2": func(tier string) []*families.Case { return families.F2D(2, 13, 4, []string{"", "s", "is"}) },
 	"f16":  func(tier string) []*families.Case { return families.F16(4, []string{"", "i", "is"}) },
@@ -40,11 +46,13 @@ func histSuite(tier string) []*families.Case {
 	if tier == "thorough" {
 		src := append(pick(families.F5(0, nil), 24), pick(families.F6(4, 0, nil), 16)...)
 		src = append(src, pick(families.F3(0, nil), 12)...)
+		src = append(src, families.F18(0, nil)...) // multi-line text: error positions after a Reset
 		cs = append(cs, families.Hist(src, 4, 7, []int{-1, 1, 1 << 15}, us, []string{"", "is"})...)
 		cs = append(cs, families.LongInputs([]string{"", "is"})...)
 	} else {
 		src := append(pick(families.F5(0, nil), 10), pick(families.F6(4, 0, nil), 6)...)
 		src = append(src, pick(families.F3(0, nil), 4)...)
+		src = append(src, families.F18(0, nil)...) // multi-line text: error positions after a Reset
 		cs = append(cs, families.Hist(src, 3, 6, []int{-1, 1, 1 << 15}, us, []string{"", "is"})...)
 		cs = append(cs, families.LongInputs([]string{""})...)
 	}
@@ -88,6 +96,10 @@ func behSuite(tier string) []*families.Case {
 		cs = append(cs, families.NestedCaptures(5, spec.AllVariants)...)
 		cs = append(cs, families.F16(5, spec.ASTVariants)...)
 		cs = append(cs, families.F4L(2, []string{"", "s", "n", "nis"})...)
+		cs = append(cs, families.F17(5, spec.AllVariants)...)
+		cs = append(cs, families.F19(2, []string{"", "s", "is", "ns"})...)
+		cs = append(cs, families.F20(4, []string{"", "is"})...)
+		cs = append(cs, families.F18(7, []string{"", "is"})...)
 		h := append(families.F1(1, 3, 0, nil), families.F4(0, nil)...)
 		h = append(h, families.F7(2, 0, nil)...)
 		cs = append(cs, families.Hostile(h, 4, []string{"", "is", "n"})...)
@@ -111,6 +123,10 @@ func behSuite(tier string) []*families.Case {
 		cs = append(cs, families.NestedCaptures(5, []string{"", "n", "nis"})...)
 		cs = append(cs, families.F16(4, []string{"", "i", "is"})...)
 		cs = append(cs, families.F4L(2, []string{"", "s"})...)
+		cs = append(cs, families.F17(4, []string{"", "is", "n", "nis"})...)
+		cs = append(cs, families.F19(2, []string{"", "s"})...)
+		cs = append(cs, families.F20(3, []string{"", "is"})...)
+		cs = append(cs, families.F18(6, []string{"", "is"})...)
 		h := append(families.F1(1, 2, 0, nil), families.F4(0, nil)[:40]...)
 		cs = append(cs, families.Hostile(h, 3, []string{"", "is"})...)
 	}
@@ -132,7 +148,7 @@ func init() {
 	reg("C03", []string{"beh"}, "accepted input on which tokens were created and then discarded")
 	reg("C04", []string{"beh"}, "accepted input with at least one action in the derivation and at least one action reached outside it")
 	reg("C05", []string{"beh"}, "accepted input whose derivation tree has at least two non-empty nodes")
-	reg("C06", []string{"beh"}, "some (rule, offset) pair is entered more than once by the naive evaluation")
+	reg("C06", []string{"beh", "hist"}, "some (rule, offset) pair is entered more than once by the naive evaluation (behaviour suite); a step of a history whose result differs from a fresh parser's only with memoisation (history suite)")
 	reg("C07", []string{"beh"}, "every case (verdict and eager trace are compared on all of them)")
 	reg("C08", []string{"static", "beh"}, "the option sets yield at least two different outputs for the grammar (static suite) / the variant's code differs from the plain parser's (behaviour suite, which also compiles the file)")
 	reg("C11", []string{"beh"}, "rejected input with a non-empty furthest token")
